@@ -141,18 +141,21 @@ func (t *XMPPTransport) Write(p []byte) (n int, err error) {
 }
 
 func (t *XMPPTransport) Close() error {
+	// Close ends the connection the transport holds now. The transport is reused for the next connection, and the
+	// wait below can outlast a reconnection: what is closed afterwards must be this connection, not its successor.
+	conn, closeChan := t.conn, t.closeChan
 	if t.readWriter != nil {
 		_, _ = t.readWriter.Write([]byte(stanza.StreamClose))
 	}
 
 	// Try to wait for the stream close tag from the server. After a timeout, disconnect anyway.
 	select {
-	case <-t.closeChan:
+	case <-closeChan:
 	case <-time.After(time.Duration(t.Config.ConnectTimeout) * time.Second):
 	}
 
-	if t.conn != nil {
-		return t.conn.Close()
+	if conn != nil {
+		return conn.Close()
 	}
 	return nil
 }
